@@ -2,6 +2,7 @@ pub mod c01;
 pub mod c06;
 pub mod c08;
 pub mod c18;
+pub mod pk;
 
 use crate::core::Case;
 
@@ -11,6 +12,10 @@ pub fn cases(prop: &str, tier: &str, seed: u64) -> Option<Vec<Case>> {
         "C06" => c06::cases(tier, seed),
         "C08" => c08::cases(tier, seed),
         "C18" => c18::cases(tier, seed),
+        "C02" => pk::c02(tier, seed),
+        "C03" => pk::c03(tier, seed),
+        "C05" => pk::c05(tier, seed),
+        "C11" => pk::c11(tier, seed),
         _ => return None,
     })
 }
